@@ -19,6 +19,8 @@ def run(prop, tier, seed, only=None):
     for ad in envcheck.load_adapters():
         if only and ad.name not in only and alias.get(ad.name, ad.name) not in only:
             continue
+        if hasattr(ad, "record_custom"):        # pseudo-adapters (no environment to step)
+            continue
         jobs.append((f"events-{ad.name}", ["-m", "harness.lib.pure_events", ad._mod, tier, str(seed)],
                      os.path.join(d, f"pure-events-{ad.name}-{tier}-{seed}.ndjson")))
     mcs = [("MC_PureFn", "MC_PureFn_quick.cfg", 600)]
